@@ -307,7 +307,7 @@ impl Property for C20 {
     fn generate(&self, rng: &mut Rng, tier: Tier) -> Sc {
         let kind = *rng.pick(&[Kind::Planar, Kind::Planar, Kind::Planar, Kind::Curved, Kind::Curved, Kind::Reject]);
         let mut return_rolled = false;
-        let (label, mut mesh) = match kind {
+        let (mut label, mut mesh) = match kind {
             Kind::Planar => {
                 let (l, mut m) = gen_planar_base(rng, tier);
                 scramble(rng, &mut m);
@@ -357,6 +357,18 @@ impl Property for C20 {
         if kind != Kind::Reject && !mesh.has_distinct_positions() {
             mesh = gen_planar_base(rng, tier).1;
         }
+        // the length unit is arbitrary: micrometre-sized and kilometre-sized copies must behave alike
+        // (bounded below so that every face keeps an area above 1e-13: parry treats a triangle
+        // whose cross product is below f64::EPSILON as having no normal at all)
+        if rng.chance(0.5) {
+            let min_area = (0..mesh.f.len()).map(|i| mesh.area(i)).fold(f64::INFINITY, f64::min);
+            let lowest = (1e-13 / min_area.max(1e-300)).sqrt().max(1e-6);
+            let s = rng.log_uniform(lowest, lowest.max(1e4));
+            for p in mesh.v.iter_mut() {
+                *p = scale(*p, s);
+            }
+            label.push_str("+scaled");
+        }
         let size = mesh.size();
         let np = if kind == Kind::Reject { 1 } else { 2 + rng.below(2) };
         let mut poses = Vec::new();
@@ -382,7 +394,7 @@ impl Property for C20 {
         // probes near the surface whose projection may land on an edge or a vertex (rim of the
         // sheet, convex ridge); only where the layout is injective (planar, rolled sheets)
         let mut near_queries = Vec::new();
-        if kind == Kind::Planar || label.ends_with("+rolled") {
+        if kind == Kind::Planar || label.contains("+rolled") {
             let bdeg = mesh.boundary_degree();
             for _ in 0..(2 + rng.below(8)) {
                 let face = rng.below(mesh.f.len());
